@@ -4,7 +4,7 @@
 From Coq Require Import List NArith ZArith.
 From Coq Require Extraction.
 From Coq Require Import ExtrOcamlBasic.
-From GT Require Import Timeout Frames Recvq SenderAtomic SenderCtl Negotiate Registry Trace MonWire MonApp MonModel MonRegistry MonRpc.
+From GT Require Import Timeout Frames Recvq SenderAtomic SenderCtl Negotiate Registry Trace MonWire MonApp MonModel MonRegistry MonRpc MonRpcRun.
 
 Definition z_to_int := Z.to_int.
 Definition z_of_int := Z.of_int.
@@ -18,4 +18,4 @@ Extraction "model.ml"
   rc_new rc_add rc_remove rc_pick rc_ready rc_all reg_new reg_open reg_close reg_pick reg_pick_key reg_key_ready reg_key_all
   rq_init rq_accept rq_dequeue rq_close rq_cancel r0_init r0_accept r0_dequeue r0_close
   sa_init step ctl_step sobs conserved_obs mkCst GTgen.Params.chunk_max
-  mkCfg mon_wire mon_C01 mon_C02 mon_C03 mon_C04 mon_C07 mon_C08 mon_C10 mon_C14 mon_C16 mon_C17 mon_C18 mon_panic mon_tables mon_ctable mon_negotiate mon_overrun mon_pipe mon_registry mon_rpc.
+  mkCfg mon_wire mon_C01 mon_C02 mon_C03 mon_C04 mon_C07 mon_C08 mon_C10 mon_C14 mon_C16 mon_C17 mon_C18 mon_panic mon_tables mon_ctable mon_negotiate mon_overrun mon_pipe mon_registry mon_rpc mon_rpcrun rpcrun_judged mon_rpcrun_debug.
